@@ -13,6 +13,11 @@ CANARIES = {
     'exceptions-dropped': ('wn.morphy',
                            "candidates.update(self._exceptions[pos].get(form, set()))",
                            "pass"),
+    'exceptions-first-then-stop': ('wn.morphy',
+                                   "            candidates.update(self._exceptions[pos].get(form, set()))\n",
+                                   "            candidates.update(self._exceptions[pos].get(form, set()))\n"
+                                   "            if self._exceptions[pos].get(form):\n"
+                                   "                return candidates\n"),
     'exceptions-overwrite': ('wn.morphy', "pos_exc[other].add(lemma)", "pos_exc[other] = {lemma}"),
     'dup-union': ('wn._core', "        if result not in seen:\n", "        if True:\n"),
 }
@@ -267,6 +272,21 @@ def h_init2x(form: str, l1: str, l2: str, f1: str, f2: str, same: bool) -> bool:
     return rt.verdict(_check_init(m, form, qpos, words))
 
 
+def h_init_irregular(form: str, l1: str, l2: str, same: bool) -> bool:
+    """
+    pre: 2 <= len(form) <= 3 and len(l1) == 1 and 1 <= len(l2) <= 2
+    post: _
+    """
+    # the query is a listed additional (irregular) form of one word and may at the same time be
+    # a regular inflection of another lemma: both words are proposed
+    qpos = POS_PARTS[1 + rt.part(len(POS_PARTS) - 1)[0]]
+    p1 = qpos if qpos != 'x' else 'n'
+    p2 = p1 if same else _OTHER[qpos]
+    words = [_W(p1, [l1, form]), _W(p2, [l2])]
+    m = M.Morphy(_FakeWordnet(words))
+    return rt.verdict(_check_init(m, form, qpos, words))
+
+
 def h_init_allpos(form: str, l1: str, f1: str) -> bool:
     """
     pre: len(form) <= MAXQA
@@ -380,6 +400,14 @@ OBLIGATIONS = [
               'two words of the same or of a different pos; query pos one partition each',
        outside='rule outputs (covered by initialized-1word); longer strings',
        stubs=['fake wordnet as above']),
+    Ob('initialized-irregular', 'h_init_irregular', parts=len(POS_PARTS) - 1,
+       quick=dict(timeout=200), thorough=dict(timeout=900),
+       canary='exceptions-first-then-stop', canary_part=0,
+       functions=['wn.morphy.Morphy.__init__', 'wn.morphy.Morphy.__call__',
+                  'wn.morphy.Morphy._morphstr'],
+       symbolic='query string (2-3 characters), which is also the additional form of word 1; lemma of '
+                'word 1 (1 character) and of word 2 (1-2 characters); whether word 2 has the query pos',
+       bounds='a listed irregular form that may also be a regular inflection of another lemma'),
     Ob('initialized-2words', 'h_init', parts=len(POS_PARTS) - 1, tiers=('thorough',),
        quick=dict(timeout=200), thorough=dict(timeout=1500),
        canary='unfiltered-candidates', canary_part=0,
